@@ -122,6 +122,9 @@ class Engine:
         self.max_ratio = 0.0
         self.killed = []
         self.digests = {}
+        self.det_sample = []
+        self._seen = 0
+        self.sim_ticks_total = 0
 
     # -- to override ----------------------------------------------------------------------
     def refs_needed(self, sc):
@@ -194,6 +197,9 @@ class Engine:
             for item in scenario_iter:
                 if sub and item[0] % sub:
                     continue
+                self._seen += 1
+                if self._seen % 131 == 1 and len(self.det_sample) < 30:
+                    self.det_sample.append(item)      # re-executed at the end: digests must be identical
                 batch.append(item)
                 if len(batch) >= 256:
                     self.ensure_refs([s for _, s in batch])
@@ -213,6 +219,7 @@ class Engine:
                 mr = o.get("max_ratio") or 0
                 if mr > self.max_ratio:
                     self.max_ratio = mr
+                self.sim_ticks_total += (o.get("ticks") or 0) + (o.get("lex_ticks") or 0)
             vs = self.judge(sc, r, self.refcache)
             self.observe(idx, sc, r)
             if vs:
@@ -221,6 +228,18 @@ class Engine:
 
     def observe(self, idx, sc, r):
         """coverage bookkeeping hook"""
+
+    def determinism_check(self):
+        """Same-scenario-twice self-test on a sample of this very run (DESIGN 3.9): a digest that differs between two
+        executions of one explicit scenario is a simulator bug, never a violation."""
+        items = [it for it in self.det_sample if it[0] in self.digests]
+        if not items:
+            return 0, 0
+        rs = self.pool.map([sc for _, sc in items])
+        bad = [idx for (idx, _), r in zip(items, rs) if not r.get("killed") and r.get("digest") != self.digests[idx]]
+        if bad:
+            raise poolmod.HarnessError(f"determinism self-test failed: runs {bad[:5]} gave another event-log digest when re-executed")
+        return len(items), 0
 
     def recheck_killed(self):
         """A wall-backstop kill only counts if it happens again alone on an idle pool."""
